@@ -180,7 +180,7 @@ def run_one(args):
                     rec['havoc_on_path'] = r.havoc
                     zm = getattr(ob, 'z3model', None)
                     if zm is not None and getattr(r, 'entry', None) is not None:
-                        env0, heap0 = r.entry
+                        env0, heap0 = r.entry[0], r.entry[1]
                         try:
                             rec['inputs'] = {k: concretize(ex, v, zm, heap0) for k, v in env0.items()
                                              if not k.startswith('_')}
@@ -509,7 +509,7 @@ def main(argv=None):
 
     n_obl = len(all_obls)
     n_proved = sum(1 for o in all_obls if o['proved'] == o['instances'])
-    known_names = {o['name'] for _, o in known_hits if not o['name'].startswith('bounded:')}
+    known_names = [o['name'] for _, o in known_hits if not o['name'].startswith('bounded:')]
     if n_obl == 0 and not limits:
         errors.append('zero obligations generated')
 
@@ -536,7 +536,7 @@ def main(argv=None):
         'property_id': pid, 'tier': tier, 'seed': seed, 'level': level,
         'coverage': {
             'obligations': n_obl - len(known_names), 'discharged': n_proved,
-            'obligations_refuted_and_listed_as_known_findings': sorted(known_names),
+            'obligations_refuted_and_listed_as_known_findings': sorted(set(known_names)),
             'checker_cmd': f'./check {pid} --tier {tier}',
             'trusted_base': sorted(assumptions),
             'explanation': getattr(mod, 'EXPLANATION', ''),
